@@ -8,6 +8,10 @@ from fjsa.cfg import CFG, Def, Node, ReachingDefs
 from fjsa.model import FuncInfo, Module, Ref, Repo, Scope, walk_local
 
 
+def _within(root: ast.AST, chain) -> bool:
+  return any(x is root for x in chain)
+
+
 def dump(e: ast.AST) -> str:
   """Structure dump ignoring load/store context and positions."""
   return ast.dump(e, annotate_fields=False, include_attributes=False).replace(
@@ -111,20 +115,32 @@ class FuncFlow:
   def scope_at(self, expr: ast.AST) -> Scope:
     """Innermost scope (lambda/comprehension aware) in which expr evaluates."""
     m = self.module
+    chain = [expr]
     n = m.parent_of.get(expr)
-    child = expr
     while n is not None:
       if n in m.scope_of_node and n is not self.module.tree:
-        sc = m.scope_of_node[n]
-        if isinstance(n, (ast.FunctionDef, ast.AsyncFunctionDef)):
-          if child in n.decorator_list or child in n.args.defaults or child in n.args.kw_defaults:
-            child, n = n, m.parent_of.get(n)
+        child = chain[-1]
+        if isinstance(n, (ast.FunctionDef, ast.AsyncFunctionDef, ast.Lambda)):
+          a = n.args
+          if child in getattr(n, 'decorator_list', []) or child is a and len(chain) >= 2 and (
+              chain[-2] in a.defaults or chain[-2] in a.kw_defaults):
+            chain.append(n)
+            n = m.parent_of.get(n)
+            continue
+        if isinstance(n, ast.ClassDef):
+          if child in n.decorator_list or child in n.bases:
+            chain.append(n)
+            n = m.parent_of.get(n)
             continue
         if isinstance(n, (ast.ListComp, ast.SetComp, ast.GeneratorExp, ast.DictComp)):
-          if child is n.generators[0] :
-            pass
-        return sc
-      child, n = n, m.parent_of.get(n)
+          # the first iterable is evaluated in the enclosing scope
+          if child is n.generators[0] and len(chain) >= 2 and _within(n.generators[0].iter, chain):
+            chain.append(n)
+            n = m.parent_of.get(n)
+            continue
+        return m.scope_of_node[n]
+      chain.append(n)
+      n = m.parent_of.get(n)
     return m.scope
 
   def resolve(self, expr: ast.AST) -> Ref:
@@ -234,6 +250,22 @@ class FuncFlow:
           out.extend(self.expand(d.value, depth - 1, _seen))
         return out
     return [e]
+
+  def deep_walk(self, e: ast.AST, depth: int = 6, _seen=None) -> Iterator[ast.AST]:
+    """Walks e and, through local names bound only by plain assignments,
+    the expressions that define them (provenance closure)."""
+    if _seen is None:
+      _seen = set()
+    for x in ast.walk(e):
+      yield x
+      if isinstance(x, ast.Name) and isinstance(x.ctx, ast.Load) and depth > 0:
+        ds = self.defs_for(x)
+        if ds and all(d.kind == 'assign' and d.value is not None for d in ds):
+          for d in ds:
+            if id(d.value) in _seen:
+              continue
+            _seen.add(id(d.value))
+            yield from self.deep_walk(d.value, depth - 1, _seen)
 
   def expand1(self, e: ast.AST) -> Optional[ast.AST]:
     xs = self.expand(e)
